@@ -16,4 +16,4 @@ DEV_BOUNDS = ("1 rank, 1-8 threads, 7 schedulers (ip/llp/ll: KF-DTD-AGAIN-LIVELO
               "serialised through tile 0, LRU eviction of the streamed tiles; (4) 1-3 devices with 3-5 tiles of memory, accelerators read only and are serialised through a token tile, constant eviction and re-staging.  "
               "The full space is reachable with knob mode=0 (sim/dev/fullspace_check.py).  No task completes before the last insertion (KF-DTD-WAR-RACE), no tile twice in one task (KF-DTD-REPEATED-TILE)")
 REGISTRY["C43"] = l2("C43", "dev", ["harness/l3/dev_driver.c", "sim/dev/simdev_parsec.c"], ["harness/l3/dev.c", "sim/dev/simdev.c"], 1, DEV_REAL, DEV_BOUNDS,
-    knobs=["prop=43"], engine="simcore-L3", variant="Bdev", prebuild=_dev_prebuild_c43, stub=DEV_STUB)
+    knobs=["prop=43"] + _os.environ.get("DEV_KNOBS", "").split(), engine="simcore-L3", variant="Bdev", prebuild=_dev_prebuild_c43, stub=DEV_STUB)
